@@ -650,7 +650,7 @@ def _case_pointwise(p, ctx):
             f_hist, x_hist = database.get_function_history(doe_problem.objective.name, with_x_vect=True)
             ctx.check(len(f_hist) == len(samples), "idf_doe", "the DOE over IDF did not record the objective at every sample")
             for k, d in enumerate(samples):
-                close(ctx, np.asarray(x_hist[k], dtype=float), vector(doe_names, d), 1e-14, "idf_doe", f"sample {k} of the DOE over IDF")
+                close(ctx, np.asarray(x_hist[k], dtype=float), vector(doe_names, d), 1e-12, "idf_doe", f"sample {k} of the DOE over IDF")  # the DOE normalises and unnormalises its samples: rounding of the order of ulp(bounds), not of the value (thorough tier, seed 4)
                 expected = ref.standard_form(ref.idf_value([p["objective"]], d), {"maximize": p["maximize"]})
                 close(ctx, np.atleast_1d(np.asarray(f_hist[k], dtype=float)).reshape(-1), expected, 1e-11, "idf_doe",
                       f"objective recorded by the DOE over IDF at sample {k}")
